@@ -1,5 +1,6 @@
 import Operon.Model.Proto
 import Operon.Model.CoordExec
+import Operon.Model.CoordLife
 /-! Line-protocol step function of the coordination model (shared by the C14 and C15 drivers). -/
 namespace Operon.Coord
 open Operon.Proto
@@ -197,26 +198,25 @@ def step (s : Sys) (toks : List String) : Sys × String :=
   | ["exempt", o, b] =>
     match s.ctx? (natD o) with
     | none => withDump s "noop"
-    | some c => withDump (s.setCtx { c with exempt := boolOf b }) "ok"
+    | some _ => withDump (lstep s (.exempt (natD o) (boolOf b))) "ok"
   | ["advance", o] =>
     match s.ctx? (natD o) with
     | none => withDump s "noop"
-    | some c =>
-      let a := advance s.now c .base
-      withDump (s.setCtx a.1) (showBool a.2)
+    | some c => withDump (lstep s (.advance (natD o) .base)) (showBool (advance s.now c .base).2)
   -- public attributes of the live context re-assigned from outside (`ctx.resources_acquired = b`, `.execution_complete`,
   -- `.validation_passed`): with them `advance` can take an operation through every phase and round the cycle (M → G0)
   | ["flag", o, f, b] =>
     match s.ctx? (natD o) with
     | none => withDump s "noop"
-    | some c =>
-      let c' : Ctx := if f = "r" then { c with resAcq := boolOf b } else if f = "e" then { c with execDone := boolOf b }
-        else if f = "v" then { c with valPassed := boolOf b } else c
-      withDump (s.setCtx c') "ok"
+    | some _ =>
+      if f = "r" then withDump (lstep s (.flag (natD o) .resAcq (boolOf b))) "ok"
+      else if f = "e" then withDump (lstep s (.flag (natD o) .execDone (boolOf b))) "ok"
+      else if f = "v" then withDump (lstep s (.flag (natD o) .valPassed (boolOf b))) "ok"
+      else withDump s "ok"
   -- `cell.agent_operations[agent] = operation id` assigned from outside: nothing in the coordination layer reads it
   | ["track", _, _] => withDump s "ok"
   | ["shutdown"] => withDump (shutdown s) "ok"
-  | ["adv", d] => withDump { s with now := s.now + natD d } "ok"
+  | ["adv", d] => withDump (lstep s (.tick (natD d))) "ok"
   | ["deadlock"] =>
     match detectCycle s.edges with
     | none => withDump s "none" ["dl:none"]
